@@ -51,6 +51,18 @@ def contracts():
     ], func='class FoldError'))
     from contracts import extra
     cs += common.shared(extra, ['reduction.Fold.__init__', 'reduction.Merge.__init__', 'reduction.Flatten.__init__'])
+    # the convenience functions and the Sum / Count constructors: which spec they build from their keyword arguments
+    ctor = lambda cfg: cfg.summaries.update({'reduction.Flatten': 'new_flatten', 'reduction.Merge': 'new_merge', 'reduction.Fold.__init__': 'fold_init'})
+    for name, kw, req in (('defaults', 'kw:', []), ('spec', 'kw:spec', []), ('init', 'kw:init', []), ('levels=0', 'kw:levels=int', ['kw_levels == 0']),
+                          ('levels=1', 'kw:levels=int', ['kw_levels == 1']), ('levels=2', 'kw:spec,init,levels=int', ['kw_levels == 2']),
+                          ('levels=3', 'kw:levels=int', ['kw_levels == 3']), ('levels<0', 'kw:levels=int', ['kw_levels < 0']), ('bogus', 'kw:bogus', [])):
+        cs.append(Equiv('reduction.flatten', 'ref_reduce.flatten_func_ref', label='reduction.flatten[%s]' % name, args={'target': 'ref', 'kwargs': kw},
+                        requires=req, config=ctor, raise_only=name in ('levels<0', 'bogus')))
+    for name, kw in (('defaults', 'kw:'), ('all', 'kw:spec,init,op'), ('bogus', 'kw:bogus')):
+        cs.append(Equiv('reduction.merge', 'ref_reduce.merge_func_ref', label='reduction.merge[%s]' % name, args={'target': 'ref', 'kwargs': kw},
+                        config=ctor, raise_only=name == 'bogus'))
+    cs.append(Equiv('reduction.Sum.__init__', 'ref_reduce.sum_init_ref', args={'self': 'inst:reduction.Sum', 'subspec': 'ref', 'init': 'ref'}, config=ctor))
+    cs.append(Equiv('reduction.Count.__init__', 'ref_reduce.count_init_ref', args={'self': 'inst:reduction.Count'}, config=ctor))
     return cs
 
 
@@ -76,10 +88,12 @@ ASSUMPTIONS = [
 ]
 TRUSTED = ['reference semantics contracts/ref_reduce.py']
 EXPLANATION = ('Fold._fold, Flatten._fold (lazy and eager), Merge._fold, Fold.glomit for each of Fold/Sum/Count/Flatten/Merge (MRO-resolved _fold/_agg), '
-               'Fold._agg, Merge._agg and target_iter are proved equal to reference reductions.')
+               'Fold._agg, Merge._agg and target_iter are proved equal to reference reductions; flatten() / merge() (which spec they build per keyword shape) and Sum / Count constructors are under contract.')
 CANARIES = [
     {'name': 'fold: op(v, ret)', 'module': 'reduction', 'only': ['reduction.Fold._fold'], 'expect': ['reduction.Fold._fold'],
      'old': "        for v in iterator:\n            ret = op(ret, v)\n\n        return ret", 'new': "        for v in iterator:\n            ret = op(v, ret)\n\n        return ret"},
     {'name': 'fold: wrong error class', 'module': 'reduction', 'only': ['reduction.Fold.glomit'], 'expect': ['reduction.Fold.glomit'],
      'old': "            raise FoldError('can only", 'new': "            raise TypeError('can only"},
+    {'name': 'flatten(): one lazy level too few', 'module': 'reduction', 'only': ['reduction.flatten'], 'expect': ['reduction.flatten'], 'old': '    spec += (Flatten(init="lazy"),) * (levels - 1)', 'new': '    spec += (Flatten(init="lazy"),) * max(levels - 2, 0)'},
+    {'name': 'Count counts only non-None items', 'module': 'reduction', 'only': ['reduction.Count.__init__'], 'expect': ['reduction.Count.__init__'], 'old': 'op=lambda cur, val: cur + 1)', 'new': 'op=lambda cur, val: cur + (val is not None))'},
 ]
